@@ -24,6 +24,21 @@ class Anchors:
                 out.append("::".join(n["segs"][-2:]))
         return out
 
+    def _reach_calls(self, fn, depth=3):
+        """_resolve_calls, followed through the private free helper functions the body was split into"""
+        out, seen, todo = [], {fn.key}, [(fn, 0)]
+        while todo:
+            f_, d_ = todo.pop(0)
+            for k in self._resolve_calls(f_):
+                if k in seen:
+                    continue
+                seen.add(k)
+                out.append(k)
+                g_ = self.f.fns[k]
+                if d_ < depth and g_.impl is None and g_.node.get("vis") != "pub" and tuple(g_.module) == tuple(fn.module) and not g_.test:
+                    todo.append((g_, d_ + 1))
+        return out
+
     def role(self, name):
         if name in self._roles:
             return self._roles[name]
@@ -49,15 +64,18 @@ class Anchors:
 
     def _r_lex(self):
         fn = self.f.fn(self.role("parse_inner"))
-        for k in self._resolve_calls(fn):
+        cands = []
+        for k in self._reach_calls(fn):
             g = self.f.fns[k]
             if norm_ty(g.node["output"]) in ("PResult<Vec<Token>>",) and g.impl is None:
-                return k
-        return None
+                cands.append(k)
+        # a helper that only decides whether to call the lexer has the same signature: the lexer is the one the others call
+        leaf = [k for k in cands if not any(c_ in self._resolve_calls(self.f.fns[k]) for c_ in cands if c_ != k)]
+        return leaf[0] if leaf else (cands[0] if cands else None)
 
     def _r_prec_entry(self):
         fn = self.f.fn(self.role("parse_inner"))
-        for k in self._resolve_calls(fn):
+        for k in self._reach_calls(fn):
             g = self.f.fns[k]
             if g.impl is None and any(ty.replace("'_", "").startswith("&mut&[Token]") for _, ty in g.params):
                 return k
